@@ -25,10 +25,10 @@ func init() {
 		Name: "csrf", Property: "C16", Level: "exploration",
 		Main:       csrfMain,
 		MaxSimTime: 6 * time.Hour,
-		Rule: "per run the tape draws backend (built-in memory storage / SimStorage with optional Get/Set/Delete faults / in-repo internal/storage/memory as external storage / session store behind the session middleware), extractor (header, form urlencoded+multipart, query, param, cookie), " +
+		Rule: "per run the tape draws backend (built-in memory storage / SimStorage with optional Get/Set/Delete faults / in-repo internal/storage/memory as external storage / session store, either behind the session middleware or handed to the csrf middleware alone (Config.Session without the session middleware: every token operation loads and saves the session itself); in the fault stratum the session store sits on a SimStorage with Get/Set error rates and/or one-shot faults aimed at the n-th Get or Set of a request), extractor (header, form urlencoded+multipart, query, param, cookie), " +
 			"SingleUseToken, IdleTimeout, CookieSessionOnly, cookie name, key generator (counter based / default UUID), TrustedOrigins (exact, trailing slash, wildcard subdomain), proxy trust mode, route-level or app-level registration, clock phase, " +
 			"1-3 browsers and 4-28 sequential steps: safe request, unsafe request (token: current/none/forged/other browser's/stale/mangled x cookie: natural/equal/absent/different x Origin and Referer from 10+ classes x http/https x Host), " +
-			"DeleteToken route (GET/POST), cookie tampering, time advances around the idle timeout; request Hosts with and without non-default ports and Origin/Referer naming the same host name with no / default / other port; " +
+			"DeleteToken route (GET/POST), cookie tampering, replay of the token of the last admitted unsafe request, time advances around the idle timeout; request Hosts with and without non-default ports and Origin/Referer naming the same host name with no / default / other port; " +
 			"concurrent stratum (a quarter of the fault-free runs, storage backends): 2-3 browser tasks x 2-6 requests with preemption against a protected handler that yields and takes 0-1 s, including replays of a token whose request is inside the handler; " +
 			"distinct = hash of (configuration, per step (kind, token class, cookie class, origin class, referer class, scheme, admitted?, first model reason)); " +
 			"non-trivial = at least one unsafe request admitted and one rejected, or a fault fired; concurrent stratum: a replay was issued while its victim was inside the protected handler",
@@ -39,12 +39,15 @@ func init() {
 			"with the session backend the store consulted is the browser's session: a token of another session counts as not issued to that store",
 			"completeness (a request the model admits is admitted; a safe request leaves a usable cookie) is demanded in fault-free runs only; after an injected Delete error the consumed/deleted state of the tokens of that request is unknown",
 			"external storages get a private copy of the key (as a storage behind a wire serialises it); in a quarter of the fault-free header/cookie-extractor runs the string handed to Storage.Set is also kept and compared after every later request (oracle storage-key-aliases-request-buffer)",
-			"storage faults are injected on the SimStorage backend only; Origin/Referer values are those a browser can produce (no upper-case origins; an explicit default port only where it names a foreign origin); same origin = same scheme, host and port, an absent port being the scheme's default",
+			"session backend under storage faults: the model keeps, per session record, the set of tokens the record may hold: a record changes only through a successful Storage.Set of its key, and a request that reached a handler can only have left there the token the middleware settled on for it (none after a fault-free DeleteToken); a request that was rejected wrote nothing. The consumed state of an admitted single-use token is unknown only if no write of the session record succeeded in that request AND as many storage faults fired in it as the backend has independent write rounds for the consumption (session middleware in front: 1, the save at the end of the request; store alone: 2, the delete of the presented token and the write of its replacement are two separate load+save rounds, each defeated by one fault); if the first load of the session in a request fails (the one the validation needs) the request must be rejected",
+			"session middleware in front + storage faults: a recover handler is registered before it (the session middleware panics when it cannot load the session); what the session middleware itself does to such a request (500 for a safe request whose session could not be loaded or saved) is not judged",
+			"storage faults are injected on the SimStorage backends only (token storage or session storage); Origin/Referer values are those a browser can produce (no upper-case origins; an explicit default port only where it names a foreign origin); same origin = same scheme, host and port, an absent port being the scheme's default",
 			"concurrent stratum: a single-use token is consumed from the moment the protected handler is entered for a request presenting it; only a request issued after that moment is judged, overlapping earlier ones are not; expiry, deletion and the session backend (two requests of one session race for the session record) are not judged there",
 		},
 		Components: map[string]string{
 			"csrf middleware (handler, extractors, managers, origin checks)": "real (instrumented)",
-			"session middleware + store (session backend runs)":              "real (instrumented)",
+			"session middleware + store (session backend runs)":              "real (instrumented); middleware registered or not: chosen per run",
+			"session storage":                                                "session's default in-repo memory storage (fault-free runs) or stub SimStorage with error injection behind an accounting wrapper (fault stratum)",
 			"internal/memory storage + GC":                                   "real (instrumented), chosen per run",
 			"external storage":                                               "stub SimStorage (TTL on the coarse clock) with error injection, or the real in-repo internal/storage/memory, behind a key-copying wrapper; chosen per run",
 			"utils.Timestamp updater":                                        "stub daemon on the simulated clock, random phase",
@@ -86,6 +89,11 @@ type csrfOp struct {
 	noHandler      bool
 	status         int
 	getF, setF, dF bool
+	// session backend on a SimStorage (fault stratum): what the session storage saw during this request
+	plan           string   // one-shot fault aimed at this request ("" none)
+	sGetF, sSetF   int      // Get / Set calls made to fail
+	sFirstGetF     bool     // the first storage call of the request was a Get that failed
+	sWrote, sDropd []string // session records written (Set succeeded) / removed (Delete succeeded)
 	// concurrent stratum
 	dur           time.Duration // how long the protected handler takes
 	issue, hstart uint64        // event stamps: request issued / protected handler entered
@@ -124,6 +132,68 @@ func (w *csrfStore) Set(key string, val []byte, exp time.Duration) error {
 func (w *csrfStore) Delete(key string) error { return w.inner.Delete(strings.Clone(key)) }
 func (w *csrfStore) Reset() error            { return w.inner.Reset() }
 func (w *csrfStore) Close() error            { return w.inner.Close() }
+
+// csrfSessStore sits between the session store and its SimStorage (fault stratum).
+// It accounts, per request, which calls were made to fail and which session
+// records were written, and aims one-shot faults at the n-th Get or Set of a
+// request. The fault stratum is sequential: one request at a time.
+type csrfSessStore struct {
+	inner              *harness.SimStorage
+	rateGet, rateSet   int // permille, every call
+	failGetN, failSetN int // one-shot: the n-th Get / Set of the current request fails (0 = none)
+	calls, gets, sets  int
+	getF, setF         int
+	firstGetF          bool
+	wrote, dropped     []string
+}
+
+// begin starts the accounting of a request.
+func (w *csrfSessStore) begin(failGetN, failSetN int) {
+	*w = csrfSessStore{inner: w.inner, rateGet: w.rateGet, rateSet: w.rateSet, failGetN: failGetN, failSetN: failSetN}
+}
+
+func (w *csrfSessStore) Get(key string) ([]byte, error) {
+	w.calls++
+	w.gets++
+	w.inner.FailGet = w.rateGet
+	if w.gets == w.failGetN {
+		w.inner.FailGet = 1000
+	}
+	v, err := w.inner.Get(strings.Clone(key))
+	w.inner.FailGet = w.rateGet
+	if err != nil && w.calls == 1 {
+		w.firstGetF = true
+	}
+	return v, err
+}
+
+func (w *csrfSessStore) Set(key string, val []byte, exp time.Duration) error {
+	w.calls++
+	w.sets++
+	w.inner.FailSet = w.rateSet
+	if w.sets == w.failSetN {
+		w.inner.FailSet = 1000
+	}
+	k := strings.Clone(key)
+	err := w.inner.Set(k, val, exp)
+	w.inner.FailSet = w.rateSet
+	if err == nil {
+		w.wrote = append(w.wrote, k)
+	}
+	return err
+}
+
+func (w *csrfSessStore) Delete(key string) error {
+	w.calls++
+	k := strings.Clone(key)
+	err := w.inner.Delete(k)
+	if err == nil {
+		w.dropped = append(w.dropped, k)
+	}
+	return err
+}
+func (w *csrfSessStore) Reset() error { return w.inner.Reset() }
+func (w *csrfSessStore) Close() error { return w.inner.Close() }
 
 // csrfOriginOf extracts scheme://authority from a header value the way RFC 6454
 // defines the origin of a URL; ok=false if the value is not an absolute
@@ -238,12 +308,19 @@ func csrfMain(s *simrt.Sim, info *harness.RunInfo) {
 	backend := "memory"
 	switch {
 	case faults:
-		backend = "sim"
+		backend = simrt.PickS(s, "sim", "session", "sim", "session")
 	case concurrent:
 		// (two requests of one session race for the session record whatever this middleware does: not judged)
 		backend = simrt.PickS(s, "memory", "sim", "extmem")
 	default:
 		backend = simrt.PickS(s, "memory", "sim", "session", "extmem", "memory", "sim", "session")
+	}
+	// session backend: the session middleware in front of csrf (csrf finds the session in the
+	// context, it is saved once when the request ends), or the store alone (csrf loads and
+	// saves the session itself for every token operation; Save() issues the session cookie)
+	sessMode := "-"
+	if backend == "session" {
+		sessMode = simrt.PickS(s, "middleware", "store")
 	}
 	extractor := simrt.PickS(s, "header", "form", "query", "param", "header", "form", "header", "cookie")
 	singleUse := s.Chance(400)
@@ -253,7 +330,7 @@ func csrfMain(s *simrt.Sim, info *harness.RunInfo) {
 	idle := simrt.PickS(s, 20*time.Second, 3*time.Second, 6*time.Second, 90*time.Second, 20*time.Second, 6*time.Second, 0)
 	sessionOnly := s.Chance(300)
 	cookieName := simrt.PickS(s, "csrf_", "__Host-csrf_", "xsrf")
-	customGen := !s.Chance(150) || backend == "sim" || concurrent // SimStorage logs its keys: random tokens would make the event log irreproducible
+	customGen := !s.Chance(150) || backend == "sim" || concurrent || faults // SimStorage logs its keys: random tokens would make the event log irreproducible
 	exactMode := s.Draw(4)
 	wildcard := s.Chance(500)
 	proxyMode := simrt.PickS(s, 0, 0, 0, 1, 1, 2) // 0 TrustProxy off, 1 on + client is a trusted proxy, 2 on + client not trusted
@@ -267,7 +344,21 @@ func csrfMain(s *simrt.Sim, info *harness.RunInfo) {
 	mainHost := simrt.PickS(s, "example.com", "app.example.com", "example.com:8080", "shop.test", "example.com:8443", "app.example.com:3000", "example.com:8080")
 	phase := s.Draw(1000)
 	failGet, failSet, failDel := 0, 0, 0
-	if faults {
+	oneShot := 0 // session backend: permille of the requests with a fault aimed at their n-th Get / Set
+	if faults && backend == "session" {
+		// (the session paths of the middleware never call Storage.Delete)
+		mode := s.Draw(3) // 0 error rates, 1 one-shot faults only, 2 both
+		if mode != 1 {
+			failGet = simrt.PickS(s, 0, 100, 300)
+			failSet = simrt.PickS(s, 0, 100, 300)
+			if failGet+failSet == 0 {
+				failSet = 150
+			}
+		}
+		if mode != 0 {
+			oneShot = simrt.PickS(s, 300, 150, 600)
+		}
+	} else if faults {
 		failGet = simrt.PickS(s, 0, 100, 300)
 		failSet = simrt.PickS(s, 0, 100, 300)
 		failDel = simrt.PickS(s, 0, 150, 400)
@@ -324,7 +415,10 @@ func csrfMain(s *simrt.Sim, info *harness.RunInfo) {
 		}
 		return k
 	}
-	sessCur := map[string]string{} // session id -> its current token (session backend)
+	// session backend: session record (its id is the storage key and the value of the session
+	// cookie) -> the tokens it may hold; exactly one or none except after storage faults
+	sessMay := map[string]map[string]bool{}
+	lastAdmitted := "" // token of the last unsafe request that reached the handler
 	var cur *csrfOp
 	var ops []*csrfOp
 
@@ -390,6 +484,7 @@ func csrfMain(s *simrt.Sim, info *harness.RunInfo) {
 	}
 	var sim *harness.SimStorage
 	var ext *csrfStore
+	var sess *csrfSessStore // session backend in the fault stratum
 	appCfg := fiber.Config{}
 	switch proxyMode {
 	case 1:
@@ -424,22 +519,54 @@ func csrfMain(s *simrt.Sim, info *harness.RunInfo) {
 		cfg.Storage = ext
 	case "session":
 		nsess := 0
-		sh, store := session.NewWithStore(session.Config{
+		scfg := session.Config{
 			IdleTimeout: 24 * time.Hour,
 			KeyGenerator: func() string {
 				nsess++
 				return fmt.Sprintf("sess-%03d", nsess)
 			},
-		})
-		app.Use(sh)
-		cfg.Session = store
+		}
+		if faults {
+			sst := harness.NewSimStorage(s, "session-store")
+			sst.HideSizes = true
+			sess = &csrfSessStore{inner: sst, rateGet: failGet, rateSet: failSet}
+			sst.OnFault = func(op string) {
+				switch op {
+				case "get":
+					sess.getF++
+				case "set":
+					sess.setF++
+				}
+			}
+			scfg.Storage = sess
+		}
+		if sessMode == "store" {
+			cfg.Session = session.NewStore(scfg)
+			s.Count("probe_session_store_without_middleware")
+		} else {
+			if faults {
+				// the session middleware panics when it cannot load the session
+				app.Use(func(c fiber.Ctx) (err error) {
+					defer func() {
+						if r := recover(); r != nil {
+							s.Count("probe_session_middleware_panic_recovered")
+							err = fiber.ErrInternalServerError
+						}
+					}()
+					return c.Next()
+				})
+			}
+			sh, store := session.NewWithStore(scfg)
+			app.Use(sh)
+			cfg.Session = store
+		}
 	}
 	if concurrent && idle != 90*time.Second {
 		idle, idleEff = 20*time.Second, 20*time.Second // expiry plays no part in the concurrent histories
 	}
 	cfg.IdleTimeout = idle
-	cfgLine := fmt.Sprintf("faults=%v(get=%d set=%d del=%d) concurrent=%v backend=%s extractor=%s header=%s singleUse=%v idle=%v sessionOnly=%v cookie=%s customGen=%v trusted=%q proxyMode=%d routeLevel=%v trackKeys=%v hostility=%d browsers=%d steps=%d host=%s phase=%d explicitExtractor=%v keyLookup=%q",
-		faults, failGet, failSet, failDel, concurrent, backend, extractor, headerName, singleUse, idle, sessionOnly, cookieName, customGen, trusted, proxyMode, routeLevel, trackKeys, hostility, nb, nsteps, mainHost, phase, explicitExtractor, cfg.KeyLookup)
+	cfgLine := fmt.Sprintf("faults=%v(get=%d set=%d del=%d oneshot=%d) concurrent=%v backend=%s/%s extractor=%s header=%s singleUse=%v idle=%v sessionOnly=%v cookie=%s customGen=%v trusted=%q proxyMode=%d routeLevel=%v trackKeys=%v hostility=%d browsers=%d steps=%d host=%s phase=%d explicitExtractor=%v keyLookup=%q",
+		faults, failGet, failSet, failDel, oneShot, concurrent, backend, sessMode, extractor, headerName, singleUse, idle, sessionOnly, cookieName, customGen, trusted, proxyMode, routeLevel, trackKeys, hostility, nb, nsteps, mainHost, phase, explicitExtractor, cfg.KeyLookup)
 	s.Logf("cfg %s", cfgLine)
 
 	mw := csrf.New(cfg)
@@ -726,7 +853,13 @@ func csrfMain(s *simrt.Sim, info *harness.RunInfo) {
 		op.x, op.xKind, op.cookie, op.cookieKind = own, "current", own, "natural"
 		override := false
 		if unsafe && s.Chance(hostility) {
-			switch s.Draw(14) {
+			switch s.Draw(16) {
+			case 14, 15:
+				// replay the token of the last unsafe request that reached the handler
+				if lastAdmitted != "" {
+					op.x, op.xKind = lastAdmitted, "replay"
+					op.cookie, op.cookieKind, override = op.x, "equal", true
+				}
 			case 0, 1, 2, 3, 4:
 				if len(seen) > 0 && s.Chance(500) {
 					op.x, op.xKind = seen[len(seen)-1-s.Draw(min(3, len(seen)))], "stale"
@@ -782,6 +915,18 @@ func csrfMain(s *simrt.Sim, info *harness.RunInfo) {
 			path, hdr, body = attach(path, hdr, op.x, extractor == "form" && s.Chance(250))
 		}
 		sidBefore, _ := b.Get("session_id")
+		if sess != nil {
+			failGetN, failSetN := 0, 0
+			if oneShot > 0 && s.Chance(oneShot) {
+				n := s.Range(1, 3)
+				if s.Chance(500) {
+					failGetN, op.plan = n, "get#"+strconv.Itoa(n)
+				} else {
+					failSetN, op.plan = n, "set#"+strconv.Itoa(n)
+				}
+			}
+			sess.begin(failGetN, failSetN)
+		}
 		cur = op
 		now := time.Now()
 		s.Logf("step%d op%d b%d %s %s %s://%s token=%s(%s) cookie=%s(%s) origin=%q(%s) referer=%q(%s) t=%s", step, op.id, bi, op.kind, op.method, scheme, op.host,
@@ -789,6 +934,10 @@ func csrfMain(s *simrt.Sim, info *harness.RunInfo) {
 		resp := conn.Do(harness.Req{Method: op.method, Path: path, Host: hostHdr, Headers: hdr, Body: body}.Bytes())
 		cur = nil
 		op.status = resp.Status
+		if sess != nil {
+			op.sGetF, op.sSetF, op.sFirstGetF, op.sWrote, op.sDropd = sess.getF, sess.setF, sess.firstGetF, sess.wrote, sess.dropped
+			op.getF, op.setF = op.sGetF > 0, op.sSetF > 0
+		}
 		hr, err := b.Apply(resp, op.method)
 		if err != nil {
 			s.Fail("C16.response-unparsable", "op%d %s %s: a strict client cannot parse the response: %v", op.id, op.method, shown, err)
@@ -809,6 +958,9 @@ func csrfMain(s *simrt.Sim, info *harness.RunInfo) {
 			learn(respTok).untilMax = now.Add(idleEff)
 		}
 		s.Logf("op%d -> status=%d ran=%v set-cookie=%v:%s ctx=%s faults(get=%v set=%v del=%v)", op.id, op.status, op.ran, respCookie, alias(respTok), alias(op.ctxTok), op.getF, op.setF, op.dF)
+		if sess != nil {
+			s.Logf("op%d session %s -> %s; session storage: aimed fault %q, failed get=%d set=%d (first load failed=%v), records written %v", op.id, sidBefore, sidAfter, op.plan, op.sGetF, op.sSetF, op.sFirstGetF, op.sWrote)
+		}
 
 		// ---- model verdict for this request ----
 		var deny []string // definitive reasons why the request must not reach the handler
@@ -868,12 +1020,15 @@ func csrfMain(s *simrt.Sim, info *harness.RunInfo) {
 							deny = append(deny, "consumed")
 						}
 					}
-					if backend == "session" && (sidBefore == "" || sessCur[sidBefore] != op.x) {
+					if backend == "session" && (sidBefore == "" || !sessMay[sidBefore][op.x]) {
 						deny = append(deny, "other-session")
 					}
 				}
 			}
-			if op.getF {
+			// storage backend: the only Get of a request is the look-up of the presented token;
+			// session backend: the first load of the session is the one the validation depends on
+			// (later loads belong to the writes that follow an accepted token)
+			if (backend != "session" && op.getF) || op.sFirstGetF {
 				deny = append(deny, "store-get-failed")
 			}
 			// safety (always)
@@ -897,6 +1052,18 @@ func csrfMain(s *simrt.Sim, info *harness.RunInfo) {
 				extra := ""
 				if tk != nil {
 					extra = fmt.Sprintf("; token %s: live until %s, deleted=%v consumed=%v", tk.alias, tk.untilMax.Format("15:04:05.000"), tk.deleted, tk.consumed)
+				}
+				if backend == "session" {
+					var may []string
+					for _, t := range seen {
+						if sessMay[sidBefore][t] {
+							may = append(may, alias(t))
+						}
+					}
+					extra += fmt.Sprintf("; session backend (%s), session %q may hold %v", sessMode, sidBefore, may)
+					if sess != nil {
+						extra += fmt.Sprintf("; session storage faults in this request: get=%d set=%d, first load failed=%v", op.sGetF, op.sSetF, op.sFirstGetF)
+					}
 				}
 				s.Fail(id, "op%d (b%d %s %s://%s%s at %s) reached the protected handler although the model rejects it: %s [token %s(%s), cookie %s(%s), Origin %q, Referer %q, trusted %q]%s",
 					op.id, bi, op.method, scheme, op.host, shown, now.Format("15:04:05.000"), strings.Join(deny, ","), alias(op.x), op.xKind, alias(op.cookie), op.cookieKind, op.origin, op.referer, trusted, extra)
@@ -928,8 +1095,12 @@ func csrfMain(s *simrt.Sim, info *harness.RunInfo) {
 				s.Count("probe_model_admits")
 			}
 		} else {
-			// safe methods always pass
-			if !op.ran || (op.kind == "safe" && op.status != 200) {
+			// safe methods always pass (a session middleware in front that could not load or
+			// save its session answers 500 by itself: not this middleware's doing)
+			sessMwFault := sess != nil && sessMode == "middleware" && op.sGetF+op.sSetF > 0
+			if sessMwFault {
+				s.Count("probe_safe_request_failed_by_session_middleware")
+			} else if !op.ran || (op.kind == "safe" && op.status != 200) {
 				s.Fail("C16.safe-blocked", "op%d (b%d %s %s://%s%s, Origin %q, cookie %s) is a safe request but ran=%v status=%d", op.id, bi, op.method, scheme, op.host, shown, op.origin, alias(op.cookie), op.ran, op.status)
 			}
 			if op.kind == "safe" && !faults && op.ran {
@@ -964,15 +1135,68 @@ func csrfMain(s *simrt.Sim, info *harness.RunInfo) {
 				tk.untilMax = t
 			}
 			tk.untilMin = now.Add(idleEff)
-			if backend == "session" && sidAfter != "" {
-				sessCur[sidAfter] = respTok
+			if backend == "session" && sess == nil && sidAfter != "" {
+				sessMay[sidAfter] = map[string]bool{respTok: true}
 			}
+		}
+		if sess != nil && op.ran {
+			// A session record changes only through a successful Set of its key. A request that
+			// reached a handler wrote at most the token the middleware settled on for it (the one
+			// in the context, also in the response cookie unless DeleteToken expired that), and
+			// no token at all as its last write if DeleteToken ran and no storage call failed.
+			// A rejected request wrote nothing (the session middleware saves what it loaded).
+			left := map[string]bool{}
+			cleared := op.kind == "logout" && op.deletedOK && op.sGetF+op.sSetF == 0
+			if !cleared {
+				for _, t := range []string{op.ctxTok, respTok} {
+					if tokens[t] != nil {
+						left[t] = true
+					}
+				}
+			}
+			for _, k := range op.sDropd {
+				sessMay[k] = map[string]bool{}
+			}
+			for _, k := range op.sWrote {
+				if cleared {
+					for _, t := range seen {
+						if sessMay[k][t] {
+							tokens[t].deleted = true
+						}
+					}
+					if tk := tokens[op.ctxTok]; tk != nil {
+						tk.deleted = true
+					}
+				}
+				sessMay[k] = left
+			}
+		}
+		if op.ran && unsafe {
+			lastAdmitted = op.x
 		}
 		if op.ran && unsafe && singleUse {
 			if tk := tokens[op.x]; tk != nil {
 				tk.consumed = true
 				if op.dF {
 					tk.consumedUnk = true
+				}
+				if sess != nil {
+					// The presented token can still be in the stored session only if no write of the
+					// record succeeded in this request. That is excused only if as many faults fired
+					// as the backend has independent write rounds for the consumption: one with the
+					// session middleware (the save at the end of the request), two with the store
+					// alone (delete of the presented token, write of the replacement: a load + a save
+					// each, one fault defeats one round).
+					rounds := 1
+					if sessMode == "store" {
+						rounds = 2
+					}
+					if len(op.sWrote) == 0 && op.sGetF+op.sSetF >= rounds {
+						tk.consumedUnk = true
+						s.Count("probe_session_consumption_lost_to_faults")
+					} else if op.sGetF+op.sSetF > 0 {
+						s.Count("probe_session_consumption_survived_a_fault")
+					}
 				}
 			}
 		}
@@ -990,8 +1214,17 @@ func csrfMain(s *simrt.Sim, info *harness.RunInfo) {
 			if op.deletedOK {
 				if backend == "session" {
 					// the token kept in the caller's session is dropped, whatever the cookie said
-					if sidAfter != "" {
-						sessCur[sidAfter] = ""
+					// (fault stratum: see the session records above)
+					if sess == nil && sidAfter != "" {
+						for _, t := range seen {
+							if sessMay[sidAfter][t] {
+								tokens[t].deleted = true
+							}
+						}
+						if tk := tokens[op.ctxTok]; tk != nil {
+							tk.deleted = true
+						}
+						sessMay[sidAfter] = map[string]bool{}
 					}
 				} else if tk := tokens[op.cookie]; tk != nil {
 					tk.deleted = true
